@@ -115,5 +115,4 @@ partial def loop (h : IO.FS.Stream) (v : Variant) (c : Config) : IO Unit := do
 
 end Ampverif.C12Builder
 
-def main : IO Unit := do
-  Ampverif.C12Builder.loop (← IO.getStdin) Ampverif.C12Builder.Variant.soundV ⟨false, false, 0⟩
+-- `main` (line-protocol entry point) lives in Ampverif/Drivers/C12Builder.lean
